@@ -211,6 +211,11 @@ func ruleCMP2(c *Ctx) []Ob {
 		for _, b := range fn.Blocks {
 			for _, in := range b.Instrs {
 				switch x := in.(type) {
+				case *ssa.Call:
+					if full := calleeFullName(x); full == "(time.Time).UnixNano" {
+						n++
+						o.add(VIOLATED, c.fname(fn)+"/time compared through UnixNano", relPath(c, x.Pos()), "times are ordered through UnixNano(), which is only defined for instants between 1678 and 2262 and wraps silently outside: year 2300 compares before 2020; compare instants with Before/After/Equal")
+					}
 				case *ssa.BinOp:
 					if x.Op != token.SUB || !isIntType(x.Type()) {
 						continue
